@@ -255,6 +255,11 @@ class Scenario:
                     key = (ci, oi)
                     if op[0] in ('rpc', 'rpc_ff'):
                         sync = op[1] if op[0] == 'rpc' else False
+                        if spec.get('reseed'):
+                            # an application that seeds the process-wide generator before each job (reproducible runs):
+                            # message-ids must stay unique whatever the application does with `random`
+                            import random as _random
+                            _random.seed(spec['reseed'])
                         try:
                             rpc = Get(ses, dh, async_mode=not sync, timeout=5, raise_mode=RaiseMode.NONE)
                         except Exception as e:
